@@ -215,10 +215,11 @@ EndOf(gc) == IF gc.segs = <<>> THEN gc.st ELSE LET s == gc.segs[Len(gc.segs)] IN
 (* 3. Normal forms: what adapters may legitimately change                    *)
 (***************************************************************************)
 ZeroLine(s) == Len(s) = 2 /\ s[1] = s[2]
-NonZero(s) == ~ZeroLine(s)
+ZeroSeg(s) == \A i \in 2..Len(s) : s[i] = s[1]     \* all control points coincide: the segment is a point
+NonZero(s) == ~ZeroSeg(s)
 
-(* GeoPlain: geometry as drawn.  A straight segment of length zero draws nothing and is
-   dropped; a contour that draws nothing is a lone point (whether it was "closed" is not
+(* GeoPlain: geometry as drawn.  A segment whose control points all coincide (in particular a
+   straight segment of length zero) draws nothing and is dropped; a contour that draws nothing is a lone point (whether it was "closed" is not
    observable: BasePointToSegmentPen / reversedContour document that single-point paths
    cannot be closed).                                                                   *)
 GeoPlainItem(gc) ==
@@ -247,13 +248,15 @@ SameCyclic(a, b) ==
           ELSE \E r \in 0..(Len(a.segs) - 1) : RotSegs(a.segs, r) = b.segs
 SameUpToStart(ga, gb) == Len(ga) = Len(gb) /\ \A i \in 1..Len(ga) : SameCyclic(ga[i], gb[i])
 
-(* Structure level.  NormSingle: a contour of one point has no observable closedness.
+(* Structure level.  NormSingle: a contour of one point (on- or off-curve) has no extent and
+   no observable closedness; BasePointToSegmentPen emits it as a lone "move" ("not much more
+   we can do"), reversedContour documents "single-point paths can't be closed".
    NormP2S: a segment pen starts a closed contour at an on-curve point, so a point
    structure that begins with off-curve points is rotated to its first on-curve point
    (BasePointToSegmentPen: "the initial moveTo point is the last point of the last
    segment" after rotating the list so that it ends with the first on-curve point).      *)
 NormSingleItem(it) ==
-  IF it.k = "c" /\ Len(it.pts) = 1 /\ OnCurve(it.pts[1])
+  IF it.k = "c" /\ Len(it.pts) = 1
   THEN Contour(FALSE, <<P3(XY(it.pts[1]), TMOVE)>>) ELSE it
 NormSingle(items) == [i \in 1..Len(items) |-> NormSingleItem(items[i])]
 RotFirstOnItem(it) ==
@@ -387,7 +390,7 @@ RECURSIVE MergeHV(_, _)
 MergeHV(ss, acc) ==
   IF ss = <<>> THEN acc
   ELSE LET s == Head(ss)  n == Len(acc) IN
-       IF ZeroLine(s) THEN MergeHV(Tail(ss), acc)
+       IF ZeroSeg(s) THEN MergeHV(Tail(ss), acc)
        ELSE IF n > 0 /\ ((IsH(s) /\ IsH(acc[n])) \/ (IsV(s) /\ IsV(acc[n])))
             THEN (IF acc[n][1] = s[2] THEN MergeHV(Tail(ss), SubSeq(acc, 1, n - 1))
                   ELSE MergeHV(Tail(ss), [acc EXCEPT ![n] = <<acc[n][1], s[2]>>]))
